@@ -224,6 +224,42 @@ class Driver(GenericAdapter):
 
 # ------------------------------------------------------------------ traces
 
+EMPTY_READS = {"len": 0, "getitem": [], "index": [], "slices": [], "hasfull": False, "full": [], "fullrev": []}
+
+
+def reads(s, rng, drv, nitems, last_added, want_full):
+    """Sampled reads of one object: len, s[i], index()/count()/membership, slices, now and then the full order."""
+    K, dec = drv.K, drv.dec
+    ev = {"len": 0, "getitem": [], "index": [], "slices": [], "hasfull": False, "full": [], "fullrev": []}
+    try:
+        n = ev["len"] = len(s)
+        for i_ in ([rng.randrange(-n, n) for _ in range(3)] + [-1, n - 1, n // 2] if n else []):
+            ev["getitem"].append([i_, dec(s[i_])])
+        for x_ in [rng.randint(1, nitems), rng.randint(1, nitems), last_added] + ([dec(s[-1])] if n else []):
+            try:
+                ev["index"].append([x_, s.index(K(x_))])
+            except ValueError:
+                ev["index"].append([x_, -1])
+            if (K(x_) in s) != (ev["index"][-1][1] >= 0) or s.count(K(x_)) != int(K(x_) in s):
+                ev["index"][-1][1] = -7
+        for _ in range(3):
+            a = rng.choice([None, rng.randint(-n - 1, n + 1)])
+            b = rng.choice([None, rng.randint(-n - 1, n + 1)])
+            k_ = rng.choice([None, 1, 1, 2, 3, 7])
+            ev["slices"].append([[NONE if a is None else a, NONE if b is None else b, NONE if k_ is None else k_],
+                                 [dec(e) for e in s[a:b:k_]]])
+        if want_full:
+            ev["hasfull"] = True
+            ev["full"] = [dec(e) for e in s]
+            ev["fullrev"] = [dec(e) for e in reversed(s)]
+    except core.Hang:
+        raise
+    except Exception as ex:
+        ev["len"] = -1
+        ev["why"] = core.exc_name(ex)
+    return ev
+
+
 def record(ntraces, length, seed, nitems):
     rng = random.Random(seed)
     traces = []
@@ -235,6 +271,7 @@ def record(ntraces, length, seed, nitems):
         phase = "grow"
         queue = []           # scripted follow-up operations (runs of adjacent removals, tail pops, re-adds)
         last_added = 1
+        twin, twin_age = None, 0
         for i in range(length):
             n = len(s)
             if n > nitems * 0.8:
@@ -307,34 +344,32 @@ def record(ntraces, length, seed, nitems):
             # the specification takes operands as the sequence in which they iterate
             op["ops"] = [[dec(e) for e in a] for a in args]
             s, got = drv.step(s, op, variant, args=args)
-            n = len(s)
-            ev = {"op": op, "variant": variant or "", "r": got["r"], "len": n, "getitem": [], "index": [], "slices": [],
-                  "hasfull": False, "full": [], "fullrev": []}
-            try:
-                for i_ in ([rng.randrange(-n, n) for _ in range(3)] + [-1, n - 1, n // 2] if n else []):
-                    ev["getitem"].append([i_, dec(s[i_])])
-                for x_ in [rng.randint(1, nitems), rng.randint(1, nitems), last_added] + ([dec(s[-1])] if n else []):
-                    try:
-                        ev["index"].append([x_, s.index(K(x_))])
-                    except ValueError:
-                        ev["index"].append([x_, -1])
-                    if (K(x_) in s) != (ev["index"][-1][1] >= 0) or s.count(K(x_)) != int(K(x_) in s):
-                        ev["index"][-1][1] = -7
-                for _ in range(3):
-                    a = rng.choice([None, rng.randint(-n - 1, n + 1)])
-                    b = rng.choice([None, rng.randint(-n - 1, n + 1)])
-                    k_ = rng.choice([None, 1, 1, 2, 3, 7])
-                    ev["slices"].append([[NONE if a is None else a, NONE if b is None else b, NONE if k_ is None else k_],
-                                         [dec(e) for e in s[a:b:k_]]])
-                if i % 40 == 39 or i == length - 1:
-                    ev["hasfull"] = True
-                    ev["full"] = [dec(e) for e in s]
-                    ev["fullrev"] = [dec(e) for e in reversed(s)]
-            except core.Hang:
-                raise
-            except Exception as ex:
-                ev["len"] = -1
-                ev["why"] = core.exc_name(ex)
+            ev = {"op": op, "variant": variant or "", "r": got["r"], "fork": False, "hastwin": False, "twin": dict(EMPTY_READS)}
+            ev.update(reads(s, rng, drv, nitems, last_added, i % 40 == 39 or i == length - 1))
+            # a second object made from this one (constructor, from_iterable, full slice, operator) must stay what it
+            # was while the other one keeps changing: the trace continues on one of the two, the other is probed
+            if twin is None and ev["len"] >= 4 and rng.random() < 0.05:
+                form = rng.choice(["ctor", "ctor", "from_iterable", "slice", "or-empty", "sub-empty"])
+                try:
+                    c_ = drv.cls(s) if form == "ctor" else drv.cls.from_iterable(s) if form == "from_iterable" else s[:] if form == "slice" else \
+                        (s | drv.cls()) if form == "or-empty" else (s - [])
+                    ev["fork"], ev["forkform"] = True, form
+                    ev.update(reads(s, rng, drv, nitems, last_added, True))
+                    if rng.random() < 0.5:
+                        twin = c_
+                    else:
+                        twin, s = s, c_
+                    twin_age = 0
+                except core.Hang:
+                    raise
+                except Exception as ex:
+                    ev["len"], ev["why"] = -1, "fork:" + core.exc_name(ex)
+            elif twin is not None:
+                ev["hastwin"] = True
+                ev["twin"] = reads(twin, rng, drv, nitems, last_added, twin_age % 4 == 0)
+                twin_age += 1
+                if twin_age > 30:
+                    twin = None
             evs.append(ev)
         traces.append({"conc": drv.name, "nitems": nitems, "ev": evs})
     return traces
@@ -358,6 +393,8 @@ def main(tier, seed):
         record(48, 6000, seed, 600) + record(32, 2000, seed + 1, 60) + record(8, 20000, seed + 2, 2500)
     core.validate_traces_generic(SPECDIR, "ISetTrace.tla", "ISetTrace.cfg", traces, stats, verdict, Driver.subject,
                                  shards=min(core.NCPU, len(traces)))
+    stats.extra["second_objects_forked_in_traces"] = sum(1 for t_ in traces for e in t_["ev"] if e["fork"])
+    stats.extra["twin_probe_events"] = sum(1 for t_ in traces for e in t_["ev"] if e["hastwin"])
     stats.sample({"trace_first_events": [{k: e[k] for k in ("op", "r", "len", "getitem", "slices")} for e in traces[0]["ev"][:3]]})
     rc = verdict.finish()
     core.write_evidence(PROP, tier, seed, stats.coverage(
